@@ -241,45 +241,69 @@ pub use env::Env;
 
 //-----------------------------------------------------------------------------
 
-/// What the file must contain: zero except for a few recorded writes (last write wins).
-pub struct Expect { n: usize, at: [(usize, u64); 8] }
+/// What the file must contain: zero except for a few recorded writes (later slots win).
+/// Slots are addressed by concrete numbers (no symbolic indexing into the table).
+pub const SLOTS: usize = 5;
+pub struct Expect { pub on: [bool; SLOTS], pub at: [(usize, u64); SLOTS] }
 impl Expect {
-    pub fn new() -> Expect { Expect { n: 0, at: [(0, 0); 8] } }
-    pub fn set(&mut self, i: usize, v: u64) { self.at[self.n] = (i, v); self.n += 1; }
+    pub fn new() -> Expect { Expect { on: [false; SLOTS], at: [(0, 0); SLOTS] } }
+    pub fn set(&mut self, slot: usize, i: usize, v: u64) { self.at[slot] = (i, v); self.on[slot] = true; }
     pub fn word(&self, i: usize) -> u64 {
         let mut r = 0u64;
         let mut k = 0;
-        while k < 8 { if k < self.n && self.at[k].0 == i { r = self.at[k].1; } k += 1; }
+        while k < SLOTS { if self.on[k] && self.at[k].0 == i { r = self.at[k].1; } k += 1; }
         r
+    }
+}
+
+/// Keeps a drawn value in CBMC's cone of influence of every property (a tautology the simplifier
+/// does not remove). Without it `--slice-formula` drops inputs that the failing check does not
+/// depend on from the counterexample trace, and the remaining values are replayed out of order.
+pub fn keep(v: u64) { sym::assume((v | 1) != 0); }
+
+/// One of a few positions in a file of `words` words: first, last, middle, around the first page
+/// boundary. (A store and a load at two *independent* fully symbolic indices through the raw
+/// mapping pointer cost CBMC minutes; loads use a fully symbolic index, stores and the special
+/// content word use these positions.)
+pub fn pick(sel: u8, words: usize) -> usize {
+    if words == 0 { return 0; }
+    match sel % 6 {
+        0 => 0,
+        1 => words - 1,
+        2 => words / 2,
+        3 => 511 % words,
+        4 => 512 % words,
+        _ => words / 3,
     }
 }
 
 /// `cycles` map/drop cycles on one file of `size` bytes (capacity `cap_words` words, concrete).
 /// Symbolic: mode of every cycle, file cannot be opened, OS refusal, content (first word, last
-/// word and one arbitrary word at an arbitrary index are arbitrary, the rest is zero), the index
-/// read, the index/value written in every mutable cycle.
-fn run(size: usize, cap_words: usize, cycles: usize) {
+/// word and one word at a `pick`ed position are arbitrary, the rest is zero), the index read
+/// (any), the value and `pick`ed position written in every mutable cycle.
+fn run(size: usize, cap_words: usize, cycles: usize, content: bool) {
     let missing = sym::bool();
     let refuse = sym::bool();
     let first = sym::u64();
     let last = sym::u64();
-    let wi = sym::usize();
+    let wsel = sym::u8();
     let wv = sym::u64();
+    keep(missing as u64); keep(refuse as u64); keep(first); keep(last); keep(wsel as u64); keep(wv);
     let words = size / 8;
     assert!(words <= cap_words && cycles <= 2);
     let mut x = Expect::new();
-    if words > 0 {
-        x.set(0, first);
-        x.set(words - 1, last);
-        if wi < words { x.set(wi, wv); }
-    }
-    let e = Env::create(size, cap_words, &x.at[..x.n], missing, refuse);
+    x.set(0, 0, first);
+    x.set(1, if words > 0 { words - 1 } else { 0 }, last);
+    x.set(2, pick(wsel, words), wv);
+    // (entries whose index is not below size / 8 are ignored by `create` and never looked up)
+    let e = Env::create(size, cap_words, &x.at[..3], missing, refuse);
     assert!(e.mapped_pages() == 0 && e.open_fds() == 0);
     let expect_err = missing || size % 8 != 0 || size == 0 || refuse;
 
     let mut c = 0;
     while c < cycles {
         let mutable = sym::bool();
+        keep(mutable as u64);
         let mode = if mutable { MappingMode::Mutable } else { MappingMode::ReadOnly };
         let res = e.during_map(|| MemoryMap::new(e.path(), mode));
         match res {
@@ -297,7 +321,7 @@ fn run(size: usize, cap_words: usize, cycles: usize) {
                 assert!(!map.is_empty());
                 assert!(map.mode() == mode);
                 e.check_mapping(mutable, size);
-                {
+                if content {
                     let s: &[u64] = map.as_ref();
                     assert!(s.len() == words);
                     assert!(s[0] == x.word(0));
@@ -305,11 +329,11 @@ fn run(size: usize, cap_words: usize, cycles: usize) {
                     let j = sym::usize_in(0, words - 1);
                     assert!(s[j] == x.word(j));
                 }
-                if mutable {
-                    let k = sym::usize_in(0, words - 1);
+                if content && mutable {
+                    let k = pick(sym::u8(), words);
                     let nv = sym::u64();
                     unsafe { map.as_mut_slice()[k] = nv; }
-                    x.set(k, nv);
+                    x.set(3 + c, k, nv);
                     let s: &[u64] = map.as_ref();
                     assert!(s[k] == nv);
                 }
@@ -317,8 +341,10 @@ fn run(size: usize, cap_words: usize, cycles: usize) {
                 // released completely (F2), descriptor closed
                 e.check_released();
                 // the file has the changes and nothing else changed
-                let j = sym::usize_in(0, words - 1);
-                assert!(e.file_word(j) == x.word(j));
+                if content {
+                    let j = sym::usize_in(0, words - 1);
+                    assert!(e.file_word(j) == x.word(j));
+                }
                 e.next_cycle();
             }
         }
@@ -328,13 +354,14 @@ fn run(size: usize, cap_words: usize, cycles: usize) {
 
 /// Concrete file size.
 pub fn lifecycle(size: usize, cycles: usize) {
-    run(size, size / 8, cycles);
+    run(size, (size + 7) / 8, cycles, true);
 }
 
 /// Every file size in `lo..=hi` bytes (symbolic, including sizes that are not multiples of 8).
-pub fn lifecycle_sym(lo: usize, hi: usize, cycles: usize) {
+/// `content == false`: sizes, lengths, OS requests, page and descriptor accounting only.
+pub fn lifecycle_sym(lo: usize, hi: usize, cycles: usize, content: bool) {
     let size = sym::usize_in(lo, hi);
     sym::cover(size > PAGE && size % 8 == 0);
     sym::cover(size % 8 != 0);
-    run(size, hi / 8, cycles);
+    run(size, (hi + 7) / 8, cycles, content);
 }
